@@ -425,6 +425,8 @@ Proof.
   - apply IH in H. destruct H; eauto.
   - apply IH in H. destruct H; eauto.
   - apply IH in H. destruct H; eauto.
+  - apply IH in H. destruct H; eauto.
+  - apply IH in H. destruct H; eauto.
 Qed.
 
 Lemma dispatch_sorted : forall E t k s evs oc s', (forall e, script E e = []) ->
